@@ -14,4 +14,36 @@ macro_rules! wit {
 #[cfg(kani)]
 mod stubs;
 #[cfg(kani)]
+mod c01;
+#[cfg(kani)]
+mod c02;
+#[cfg(kani)]
+mod c03;
+#[cfg(kani)]
+mod c04;
+#[cfg(kani)]
+mod c05;
+#[cfg(kani)]
+mod c06;
+#[cfg(kani)]
+mod c07;
+#[cfg(kani)]
+mod c08;
+#[cfg(kani)]
+mod c09;
+#[cfg(kani)]
 mod c10;
+#[cfg(kani)]
+mod c11;
+#[cfg(kani)]
+mod c12;
+#[cfg(kani)]
+mod c13;
+#[cfg(kani)]
+mod c14;
+#[cfg(kani)]
+mod c15;
+#[cfg(kani)]
+mod c16;
+#[cfg(kani)]
+mod c19;
